@@ -7,7 +7,7 @@ hooks_commits = subprocess.run(["git", "-C", "/repo", "log", "--format=%H", "--g
 CHECKS = {
  "C01": dict(
    category="exploration",
-   text="Runtime monitor: the real Client.Start is driven with ~1.1k (quick) / ~30k (thorough) generated first-stdout-lines x client configurations through a scripted in-process runner (and a sample through a real subprocess) under the race detector; an independent reference parser written from the statement decides, per case, whether acceptance was allowed and whether the reported protocol/version/address equal the line; nil / typed-nil addresses, panics and Start calls outliving the hang threshold are violations. Held = held on the executions listed in the evidence, not a proof over all byte strings.",
+   text="Runtime monitor: the real Client.Start is driven with ~2.5k (quick) / ~114k (thorough) generated first-stdout-lines x client configurations (per-field pools, wrappers, truncations, byte mutations, and the full cross product of protocol x certificate x multiplexing field values for every configuration) through a scripted in-process runner (and a sample through a real subprocess) under the race detector; an independent reference parser written from the statement decides, per case, whether acceptance was allowed and whether the reported protocol/version/address equal the line; nil / typed-nil addresses, panics and Start calls outliving the hang threshold are violations. Held = held on the executions listed in the evidence, not a proof over all byte strings.",
    design_ref="DESIGN.md section 3, C01",
    note="Trusts: Go stdlib (strconv, net.Resolve*Addr, x509) inside the reference parser; the scripted runner as a faithful stand-in for a process' stdout pipe (cross-checked by the real-subprocess sample); hang threshold H=max(4*StartTimeout, StartTimeout+15s).",
    technique="runtime monitoring: reference-parser oracle over generated handshake lines, race detector on"),
@@ -19,7 +19,7 @@ CHECKS = {
    technique="runtime monitoring: reference log-record model over generated stderr/stdout byte streams, race detector on"),
  "C17": dict(
    category="exploration",
-   text="Runtime monitor: for 96 configuration x 6 ambient-environment combinations per launch method the environment handed to a custom runner and the environment actually received by a real child (plus its stdin identity) are captured and compared, variable by variable, with what the client configuration determines; end-to-end cases launch a real serving plugin from a host that carries PLUGIN_* variables and require the configured mode to work.",
+   text="Runtime monitor: for 96 configuration x 6 ambient-environment combinations per launch method, plus user Cmd.Env entries that collide with the control variables, the environment handed to a custom runner and the environment actually received by a real child (plus its stdin identity) are captured and compared, variable by variable, with what the client configuration determines; end-to-end cases launch a real serving plugin from a host that carries PLUGIN_* variables and require the configured mode to work.",
    design_ref="DESIGN.md section 3, C17",
    note="Effective environment computed as os/exec does (last duplicate wins); empty value = absent; host child's stdin is a distinctive regular file so that stdin pass-through is observable.",
    technique="runtime monitoring: environment capture at the runner boundary and in a real child, set-comparison oracle"),
@@ -31,37 +31,37 @@ CHECKS = {
    technique="runtime monitoring: recorded-history linearizability (porcupine) + launch counters + Go race detector"),
  "C05": dict(
    category="fault_enumeration",
-   text="Fault enumeration by runtime monitor: 20 named ways a Start can fail after launch x 3 launch methods (real process via Cmd, custom runner around a real process, scripted in-process runner); the monitor reads the launched pid's /proc state at Start-return and while polling 5 s, counts runner Kill calls, times a later Kill, checks reaping and the temp socket directory.",
+   text="Fault enumeration by runtime monitor: 20 named ways a Start can fail after launch x 5 launch methods (real process via Cmd, custom runner around a real process, the same with a Kill that honours its context without / with a grace period and the failure placed late in the start window, scripted in-process runner); the monitor reads the launched pid's /proc state at Start-return and while polling 5 s, counts runner Kill calls, times a later Kill, checks reaping and the temp socket directory.",
    design_ref="DESIGN.md section 3, C05",
    note="'shortly after' = 5 s; causes are only those every reading of C01 rejects; thorough repeats each cause 10x with seeded output delays.",
    technique="runtime monitoring: /proc process-state monitor over enumerated start-failure causes"),
  "C06": dict(
    category="exploration",
-   text="Runtime monitor: rounds of 1-64 concurrently outstanding distinct ids on a real in-process net/rpc plugin connection (both directions, accept-first/dial-first, gaps inside the window, concurrent Dispense traffic, seeded jitter at the mux hook points, race detector on); each end records the unique token and PRNG payload it read; the offline oracle checks the dial(id)<->accept(id) bijection, byte-exact payloads, no failure inside the window, and that every Dispense reaches a distinct server object of the requested name.",
+   text="Runtime monitor: rounds of 1-64 concurrently outstanding distinct ids on a real in-process net/rpc plugin connection (both directions, accept-first/dial-first, gaps inside the window, ids around the uint32 wrap, concurrent Dispense traffic incl. dispenses whose reserved id crosses the wrap, seeded jitter at the mux hook points, race detector on); each end records the unique token and PRNG payload it read; the offline oracle checks the dial(id)<->accept(id) bijection, byte-exact payloads, no failure inside the window, and that every Dispense reaches a distinct server object of the requested name.",
    design_ref="DESIGN.md section 3, C06",
    note="Both ends in one process via plugin.TestPluginRPCConn; gaps kept >= 1 s inside the 5 s window.",
    technique="runtime monitoring: unique-token routing oracle over recorded accept/dial events, hook-point jitter, race detector"),
  "C07": dict(
    category="exploration",
-   text="Runtime monitor: rounds of 1-32 concurrently outstanding ids on a real in-process gRPC connection without multiplexing, both directions and orders; every accepted id serves a PingPong service answering '<id>/<nonce>', the dialler's first call must be answered by its own id's server; jitter at the grpcbroker hook points; race detector on.",
+   text="Runtime monitor: rounds of 1-32 concurrently outstanding ids on a real in-process gRPC connection without multiplexing, both directions and orders, in-process and against real subprocesses behind custom runners that translate addresses (other path spelling; unix socket reached through a TCP forwarder, i.e. another network kind) with call counters on the translator; every accepted id serves a PingPong service answering '<id>/<nonce>', the dialler's first call must be answered by its own id's server; jitter at the grpcbroker hook points; race detector on.",
    design_ref="DESIGN.md section 3, C07",
    note="In-process pair via plugin.TestPluginGRPCConn (no TLS); TLS and address-translation paths are exercised through real subprocesses by other checks.",
    technique="runtime monitoring: id/nonce echo oracle over brokered gRPC connections, hook-point jitter, race detector"),
  "C08": dict(
    category="exploration",
-   text="Runtime monitor: sequences of 20-50 (quick) / up to 200 (thorough) brokered connections established one at a time on a multiplexed in-process gRPC pair; per-side id counters (the same number is live in both directions), accept-first and dial-first, second connections to still-open listeners; after every establishment the control connection is pinged, the main service called and every earlier brokered connection re-pinged; seeded delays at the hook points between knock-listener start, listener registration, knock acceptance and stream acceptance.",
+   text="Runtime monitor: sequences of 20-50 (quick) / up to 200 (thorough) brokered connections established one at a time on a multiplexed in-process gRPC pair; per-side id counters (the same number is live in both directions), accept-first and dial-first, second connections to still-open listeners, slow server factories, an establishment whose retrying dialler is accepted between its timed-out knock and gRPC's reconnect; after every establishment the control connection is pinged, the main service called and every earlier brokered connection re-pinged; seeded delays at the hook points between knock-listener start, listener registration, knock acceptance and stream acceptance.",
    design_ref="DESIGN.md section 3, C08",
    note="Concurrent establishment is documented as unsupported and never generated.",
    technique="runtime monitoring: id/nonce echo + health re-check oracle over sequential multiplexed establishments, schedule perturbation at hook points"),
  "C09": dict(
    category="exploration",
-   text="Runtime monitor: histories of unmatched / duplicate / late / expiry-aligned broker operations (the expiry alignment is produced deterministically by blocking the expiry goroutine at a hook point) on MuxBroker, GRPCBroker and multiplexed GRPCBroker, each followed by matched pairs on fresh ids in both directions and a close; oracle: every call returns (nominal 5 s, hang threshold 40 s), unmatched calls fail, fresh pairs succeed, no goroutine with broker frames remains after all clients are closed. One genuine defect (stale knock under multiplexing) is recorded as a known finding keyed by its exact history.",
+   text="Runtime monitor: histories of unmatched / duplicate / late / expiry-aligned broker operations (the expiry alignment is produced deterministically by blocking the expiry goroutine at a hook point) on MuxBroker, GRPCBroker and multiplexed GRPCBroker, each followed by matched pairs on fresh ids in both directions and a close; oracle: every call returns (nominal 5 s, hang threshold 40 s), unmatched calls fail, fresh pairs succeed, no goroutine with broker frames remains after all clients are closed. The defects it found (D5, D6 stale knock, D19 leaked knock listener) are repaired; known_findings.json holds only fixed entries.",
    design_ref="DESIGN.md section 3, C09 and section 4 (D5, D6)",
    note="Bounded-progress reading of liveness; thresholds are generous so a loaded machine cannot manufacture alarms.",
    technique="runtime monitoring: bounded-progress oracle over fault histories with hook-controlled line-up, goroutine-dump leak monitor"),
  "C13": dict(
    category="exploration",
-   text="Runtime monitor: ~620 (quick) / ~6k (thorough) (file, hash function, checksum) triples incl. every single-bit flip and every proper prefix of the digest; the target is a script that writes a launch marker as its first action; the oracle computes the digest independently and requires launched <=> checksum == H(file) and the corresponding error.",
+   text="Runtime monitor: ~620 (quick) / ~6k (thorough) (file, hash function, checksum) triples incl. every single-bit flip and every proper prefix of the digest; the target is a script that writes a launch marker as its first action; the oracle computes the digest independently and requires launched <=> checksum == H(file) and the corresponding error; plus histories of 2-4 launches of one path through one shared SecureConfig value with the file atomically replaced in between.",
    design_ref="DESIGN.md section 3, C13",
    note="Digest computed with Go's crypto packages in the driver; launch observed through the marker file and exec.Cmd.Process.",
    technique="runtime monitoring: launch-marker oracle against an independently computed digest, exhaustive single-bit/prefix sub-spaces"),
@@ -73,7 +73,7 @@ CHECKS = {
    technique="runtime monitoring: /proc + cleanup-marker oracle over real subprocess shutdown behaviours, race detector"),
  "C02": dict(
    category="exploration",
-   text="Runtime monitor: one real plugin subprocess per (host version set, plugin version set) pair over versions 0-4 with versioned / legacy / mixed layouts and per-version wire protocols; every plugin set carries a version tag reported by the dispensed implementation and by the host-side wrapper; half the cases also run the plugin directly with a chosen PLUGIN_PROTOCOL_VERSIONS to read the raw announced line. Oracle = set arithmetic (highest common version, lowest when no list, incompatible-version error + terminated process when disjoint). Thorough is exhaustive over all 31x31 subset pairs.",
+   text="Runtime monitor: one real plugin subprocess per (host version set, plugin version set) pair over versions 0-4 with versioned / legacy / mixed layouts and per-version wire protocols; every plugin set carries a version tag reported by the dispensed implementation and by the host-side wrapper; half the cases also run the plugin directly with a chosen PLUGIN_PROTOCOL_VERSIONS to read the raw announced line. Relaunch cases start a second plugin (other version sets) through the same ClientConfig object. Oracle = set arithmetic (highest common version, lowest when no list, incompatible-version error + terminated process when disjoint). Thorough is exhaustive over all 31x31 subset pairs.",
    design_ref="DESIGN.md section 3, C02",
    note="Sets registered under one version use the same wire protocol on both sides; GRPCServer configured whenever a plugin-side set is gRPC.",
    technique="runtime monitoring: version-tag echo + raw handshake line capture, set-arithmetic oracle (exhaustive in thorough)"),
@@ -85,37 +85,37 @@ CHECKS = {
    technique="runtime monitoring: crash-point injection via hook points and signals, call/return log judged against a needs-the-plugin table"),
  "C11": dict(
    category="exploration",
-   text="Runtime monitor: a real serving plugin (net/rpc, gRPC, gRPC+mux) writes self-describing frames ([stream tag][seq][len][PRNG payload]) to its stdout/stderr according to seeded plans (sizes around the 1 KiB / 4 KiB boundaries up to 1 MiB, two writer goroutines, optional RPC traffic, data written before the host attaches, more than pipe capacity); the host regenerates the expected streams and checks every 20 ms that what arrived on SyncStdout/SyncStderr is a prefix of them (no duplication, reordering, corruption, crossing) and, after the acknowledged last write, that everything arrives (bounded progress).",
+   text="Runtime monitor: a real serving plugin (net/rpc, gRPC, gRPC+mux) writes self-describing frames ([stream tag][seq][len][PRNG payload]) to its stdout/stderr according to seeded plans (sizes around the 1 KiB / 4 KiB boundaries up to 1 MiB, two writer goroutines, optional RPC traffic, data written before the host attaches, more than pipe capacity, lone writes of exact buffer-multiple sizes followed by silence); the host regenerates the expected streams and checks every 20 ms that what arrived on SyncStdout/SyncStderr is a prefix of them (no duplication, reordering, corruption, crossing) and, after the acknowledged last write, that everything arrives (bounded progress).",
    design_ref="DESIGN.md section 3, C11",
    note="Loss is judged 15 s after the plugin acknowledged its last write with the connection still answering Ping.",
    technique="runtime monitoring: prefix-of-regenerated-stream oracle over self-describing frames, race detector on both processes"),
  "C12": dict(
    category="exploration",
-   text="Runtime monitor with hostile peers: for every connection path (main listeners of all three protocols incl. a race for the multiplexed listener's single session, plugin-side and host-side brokered gRPC listeners) intruders with five credential classes speak the real wire protocol and any answered RPC is a violation, while a positive control by the legitimate peer must succeed in the same case; impostor plugins announce one certificate and serve another (or plaintext) with the real protocol and any completed host RPC is a violation.",
+   text="Runtime monitor with hostile peers: for every connection path (main listeners of all three protocols incl. a race for the multiplexed listener's single session, plugin-side and host-side brokered gRPC listeners) intruders with five credential classes speak the real wire protocol and any answered RPC is a violation, while a positive control by the legitimate peer must succeed in the same case; plugins started directly with PLUGIN_CLIENT_CERT in eight unusual shapes are attacked the same way; impostor plugins announce one certificate and serve another (or plaintext) with the real protocol and any completed host RPC is a violation.",
    design_ref="DESIGN.md section 3, C12",
    note="Samples credential classes with fresh keys per case; cases without a successful positive control are inconclusive.",
    technique="runtime monitoring: intruder/impostor probes with positive controls against real AutoMTLS plugin processes"),
  "C16": dict(
    category="exploration",
-   text="Runtime monitor in which the harness is the host: the plugin binary is executed directly over the cookie x configuration product; raw stdout/stderr/exit status, the private sandbox listing, an immediate connect to the announced address, and strace's bind/listen/write order decide the property (no listener and status 1 without the cookie; exactly one well-formed line, nothing else on fd 1, listener ready before the line).",
+   text="Runtime monitor in which the harness is the host: the plugin binary is executed directly over the cookie x configuration product and over 13 shapes of the host's version list; raw stdout/stderr/exit status, the private sandbox listing, an immediate connect to the announced address, and strace's bind/listen/write order decide the property (no listener and status 1 without the cookie; exactly one well-formed line, nothing else on fd 1, listener ready before the line).",
    design_ref="DESIGN.md section 3, C16",
    note="Needs a working strace -f for the syscall-order and transient-listener observations (self-tested at run start; recorded in the evidence as strace_available).",
    technique="runtime monitoring: external process/syscall monitor (strace) plus raw stdio and file-system observation"),
  "C14": dict(
    category="exploration",
-   text="Runtime monitor over the configuration cross product (576 cells + option conflicts; quick = seeded sample with every expectation kind, thorough = exhaustive): each cell launches a real plugin subprocess and records start error class, protocol in use, Ping, identity-tagged call, brokered callbacks in both directions, an 8 MiB response, Dispense of an unknown name, process state after refusals, hangs and panics; a classification table written from the statement (MUST_WORK / MUST_FAIL_AT_START(kind) / MUST_NOT_WORK / EITHER_BUT_CLEAN) is the oracle.",
+   text="Runtime monitor over the configuration cross product (576 cells + option conflicts + plugins that ignore PLUGIN_CLIENT_CERT + raw-line plugins; quick = seeded sample with every expectation kind, thorough = exhaustive): each cell launches a real plugin subprocess and records start error class, protocol in use, Ping, identity-tagged call, brokered callbacks in both directions, an 8 MiB response, Dispense of an unknown name, process state after refusals, hangs and panics; a classification table written from the statement (MUST_WORK / MUST_FAIL_AT_START(kind) / MUST_NOT_WORK / EITHER_BUT_CLEAN) is the oracle.",
    design_ref="DESIGN.md section 3, C14",
    note="Documented-unsupported combinations (AutoMTLS+TLSProvider, AutoMTLS+reattach) are only required to be clean; static TLS is configured so that both sides can act as TLS server and client (brokered connections need both roles).",
    technique="runtime monitoring: classification-table oracle over the real configuration cross product (exhaustive in thorough)"),
  "C15": dict(
    category="exploration",
-   text="Runtime monitor: seeded histories of reattach (first and second generation), put/get through any client, concurrent put/get through two clients, kill through any client and reattach-after-death, against real plugin processes and in-process test-mode servers; oracles: reference {alive,dead} state machine with a sequential store, instance-id equality, /proc state, errors.Is(ErrProcessNotFound), CloseCh, and a porcupine per-key register linearizability check of the concurrent phase.",
+   text="Runtime monitor: seeded histories of reattach (first and second generation), put/get through any client, concurrent put/get through two clients, kill through any client, reattach-after-death and reattach after a test-mode server stopped (re-used config object, second-generation config), against real plugin processes and in-process test-mode servers; oracles: reference {alive,dead} state machine with a sequential store, instance-id equality, /proc state, errors.Is(ErrProcessNotFound), CloseCh, and a porcupine per-key register linearizability check of the concurrent phase.",
    design_ref="DESIGN.md section 3, C15",
    note="Test-mode cases run in a host process of their own because the serving process is the host.",
    technique="runtime monitoring: reference state machine + porcupine register linearizability over recorded histories"),
  "C18": dict(
    category="exploration",
-   text="Runtime monitor: seeded histories of dispenses / brokered connections in both directions / stdio followed by Kill, over protocol x TLS x launch method, real subprocesses with private sandboxes on both sides; after a graceful exit (cleanup marker present) the monitor lists both sandboxes for socket files and plugin-dir* directories and compares a goroutine dump of the host (filtered on go-plugin frames) with the count before the case, polling up to 10 s.",
+   text="Runtime monitor: seeded histories of dispenses / brokered connections in both directions / stdio / a brokered listener the plugin keeps open, followed by Kill (optionally racing with listener announcements), over protocol x TLS x launch method, real subprocesses with private sandboxes on both sides; after a graceful exit (cleanup marker present) the monitor lists both sandboxes for socket files and plugin-dir* directories and compares a goroutine dump of the host (filtered on go-plugin frames) with the count before the case, polling up to 10 s.",
    design_ref="DESIGN.md section 3, C18",
    note="One case at a time per host process so that goroutines are attributable; only graceful exits are judged.",
    technique="runtime monitoring: file-system listing + goroutine-dump leak monitor after graceful shutdown"),
